@@ -239,7 +239,8 @@ def neighbors(
                     continue
 
                 if unknown_handling == LNK_UNKNOWN_NEIGHBOR:
-                    nbs.append(link.other(vert))
+                    if filterfunc is None or filterfunc(link, v2):
+                        nbs.append(v2)
                 else:
                     raise NotImplementedError(
                         f"Unknown link class {type(link)}"
@@ -279,7 +280,8 @@ def neighbors(
                     continue
 
                 if unknown_handling == LNK_UNKNOWN_NEIGHBOR:
-                    nbs.append(link.other(vert))
+                    if filterfunc is None or filterfunc(link, v2):
+                        nbs.append(v2)
                 else:
                     raise NotImplementedError(
                         f"Unknown link class {type(link)}"
@@ -418,7 +420,8 @@ def find_links(
                 if unknown_handling == LNK_UNKNOWN_NONNEIGHBOR:
                     continue
                 if unknown_handling == LNK_UNKNOWN_NEIGHBOR:
-                    links.add(link)
+                    if filterfunc is None or filterfunc(link):
+                        links.add(link)
                 else:
                     raise NotImplementedError(
                         f"Unknown link class {type(link)}"
